@@ -1,18 +1,19 @@
 package ingestref
 
 import (
+	"io"
 	"regexp"
 	"testing"
 )
 
 func TestStrictStringObject(t *testing.T) {
 	good := map[string]string{
-		`{}`:                                "",
-		` { "a" : "x" , "b":"y" } `:         `"a"="x","b"="y"`,
-		`{"a":"\"\\\/\b\f\n\r\té"}`:    `"a"="\"\\/\b\f\n\r\té"`,
-		`{"a":"😀"}`:              `"a"="😀"`,
-		"{\"a\":\"é✓\"}":                    `"a"="é✓"`,
-		`{"a":"","b_1":"\u0000"}`:           `"a"="","b_1"="\x00"`,
+		`{}`:                        "",
+		` { "a" : "x" , "b":"y" } `: `"a"="x","b"="y"`,
+		`{"a":"\"\\\/\b\f\n\r\té"}`: `"a"="\"\\/\b\f\n\r\té"`,
+		`{"a":"😀"}`:                 `"a"="😀"`,
+		"{\"a\":\"é✓\"}":            `"a"="é✓"`,
+		`{"a":"","b_1":"\u0000"}`:   `"a"="","b_1"="\x00"`,
 	}
 	for doc, want := range good {
 		got, err := StrictStringObject([]byte(doc))
@@ -84,5 +85,23 @@ func TestSpecialNames(t *testing.T) {
 	}
 	if !has(l, "__ttl_days__") || !has(c, "TTL_DAYS") {
 		t.Errorf("the TTL pseudo-label / context value were not found: %v %v", l, c)
+	}
+}
+
+func TestSizeLimits(t *testing.T) {
+	l, err := SizeLimits("/repo")
+	if err != nil {
+		t.Skip(err)
+	}
+	t.Logf("limits %v", l)
+}
+
+func TestArrival(t *testing.T) {
+	body := []byte("0123456789abcdef")
+	for k := 0; k < ReaderKinds; k++ {
+		b, err := io.ReadAll(NewArrival(body, k))
+		if err != nil || string(b) != string(body) {
+			t.Errorf("%s: %q %v", ReaderName(k), b, err)
+		}
 	}
 }
